@@ -31,6 +31,9 @@ pub struct ExpCase {
     /// the setup function inserts a generator of its own
     #[serde(default)]
     pub user_rng: Option<u64>,
+    /// every run evaluates with a clone of one `Parallel` evaluator (nested parallelism)
+    #[serde(default)]
+    pub shared_parallel: bool,
 }
 
 #[derive(Clone, Debug, PartialEq, Default)]
@@ -40,6 +43,8 @@ pub struct ExitDigest {
     pub evaluations: Option<u32>,
     pub iterations: Option<u32>,
     pub next_word: Option<u64>,
+    /// first evaluated individual (population stack, best) whose value is not F(solution)
+    pub stale: Option<String>,
 }
 
 type DigestMap = Arc<Mutex<BTreeMap<(String, u64), ExitDigest>>>;
@@ -67,6 +72,25 @@ impl Observer<RealP> for ExitObs {
                         }
                     }
                     d.best = state.best_individual().map(|i| (RealP::key(i.solution()), i.get_objective().map(|o| o.value().to_bits())));
+                    if let Ok(pops) = state.try_borrow::<Populations<RealP>>() {
+                        'audit: for depth in 0..pops.len() {
+                            for i in pops.peek(depth).iter() {
+                                if let Some(o) = i.get_objective() {
+                                    let f = problem.reference(i.solution());
+                                    if o.value().to_bits() != f.to_bits() {
+                                        d.stale = Some(format!("an individual of the final population carries {} but F({}) = {f}", o.value(), RealP::show(i.solution())));
+                                        break 'audit;
+                                    }
+                                }
+                            }
+                        }
+                    }
+                    if let Some(b) = state.best_individual() {
+                        let f = problem.reference(b.solution());
+                        if b.get_objective().map(|o| o.value().to_bits()) != Some(f.to_bits()) && d.stale.is_none() {
+                            d.stale = Some(format!("the best individual carries {:?} but F({}) = {f}", b.get_objective().map(|o| o.value()), RealP::show(b.solution())));
+                        }
+                    }
                     d.evaluations = state.try_get_value::<Evaluations>().ok();
                     d.iterations = state.try_get_value::<Iterations>().ok();
                     let seed = state.try_borrow::<Random>().map(|r| r.config().seed).unwrap_or(u64::MAX);
@@ -78,9 +102,15 @@ impl Observer<RealP> for ExitObs {
     }
 }
 
-fn setup_fn(map: DigestMap, log: bool, user_rng: Option<u64>) -> impl Fn(&mut State<RealP>) -> ExecResult<()> + Send + Sync {
+fn setup_fn(map: DigestMap, log: bool, user_rng: Option<u64>, shared_parallel: bool) -> impl Fn(&mut State<RealP>) -> ExecResult<()> + Send + Sync {
+    // one evaluator object created up front; every run gets a clone of it
+    let prototype = mahf::problems::Parallel::<RealP>::new();
     move |state: &mut State<RealP>| {
-        state.insert_evaluator(Sequential::<RealP>::new());
+        if shared_parallel {
+            state.insert_evaluator(prototype.clone());
+        } else {
+            state.insert_evaluator(Sequential::<RealP>::new());
+        }
         if let Some(seed) = user_rng {
             // the user supplies a generator of their own (another type, another seed)
             state.insert(Random::with_rng::<crate::rng::SimRng>(seed));
@@ -128,7 +158,7 @@ impl World for Experiment {
 
     fn generate(&self, run_seed: u64, tier: Tier) -> ExpCase {
         let mut g = rng::stream(run_seed, "workload");
-        let kind = *g.pick(&[Kind::RealGa, Kind::Es, Kind::De, Kind::Pso, Kind::RealRs, Kind::RealLs, Kind::RealSa, Kind::Bh]);
+        let kind = *g.pick(&[Kind::RealGa, Kind::Es, Kind::De, Kind::Pso, Kind::RealRs, Kind::RealLs, Kind::RealSa, Kind::Bh, Kind::Iwo, Kind::Cro]);
         let opts = GenOpts { penalty: false, max_iters: tier.pick(4, 8), evaluations_term: false, log: false };
         let template = gen_case(&mut g, kind, &opts);
         let n_prob = 1 + g.below(3);
@@ -176,7 +206,7 @@ impl World for Experiment {
             }
         }
         let stale_folder = fg.chance(0.3);
-        ExpCase { template, problems, runs: 1 + g.below(6) as u64, sched, log: self.prop == "C15" || g.chance(0.7), io, stale_folder, user_rng: if g.chance(0.25) { Some(g.u64()) } else { None } }
+        ExpCase { template, problems, runs: 1 + g.below(6) as u64, sched, log: self.prop == "C15" || g.chance(0.7), io, stale_folder, user_rng: if g.chance(0.25) { Some(g.u64()) } else { None }, shared_parallel: g.chance(0.3) }
     }
 
     fn execute(&self, c: &ExpCase) -> Outcome<ExpCase> {
@@ -196,7 +226,7 @@ impl World for Experiment {
         for spec in &c.problems {
             for run in 0..c.runs {
                 let problem = RealP::new(spec.clone());
-                let setup = setup_fn(ref_map.clone(), c.log, c.user_rng);
+                let setup = setup_fn(ref_map.clone(), c.log, c.user_rng, false);
                 // a configuration object of its own: the reference must not depend on what an
                 // earlier run left in a (supposedly immutable) component
                 let config = match build(&c.template) {
@@ -261,7 +291,7 @@ impl World for Experiment {
             let map: DigestMap = Arc::new(Mutex::new(BTreeMap::new()));
             let mut disk = SimDisk::new(case.io.clone());
             disk.yield_point = Some(shuttle_yield);
-            let setup = setup_fn(map.clone(), case.log, case.user_rng);
+            let setup = setup_fn(map.clone(), case.log, case.user_rng, case.shared_parallel);
             let result = with_disk(&disk, || guarded(|| par_experiment(&config, setup, &problems, case.runs, &folder2, case.log)));
             let result = match result {
                 Ok(Ok(())) => Ok(()),
@@ -294,7 +324,11 @@ impl World for Experiment {
         let exp = match pr.result {
             Ok(e) => e,
             Err(p) => {
-                out.violation = Some((Violation::new("par-experiment-panicked", format!("{} under {:?}: {p}", c.template.kind.name(), c.sched)), c.clone()));
+                // under C05 / C06 only a panic raised by the evaluation code itself is theirs
+                let own = !matches!(self.prop, "C05" | "C06") || p.contains("src/problems/");
+                if own {
+                    out.violation = Some((Violation::new("par-experiment-panicked", format!("{} under {:?}: {p}", c.template.kind.name(), c.sched)), c.clone()));
+                }
                 return out;
             }
         };
@@ -330,8 +364,25 @@ impl World for Experiment {
                 }
                 return None;
             }
+            if exp.result.is_err() && matches!(self.prop, "C05" | "C06") {
+                return None; // a failing experiment is C08's / C15's finding
+            }
             if let Err(e) = &exp.result {
                 return Some(Violation::new("experiment-failed", format!("par_experiment({tname}) failed without a failing fault under {sched}: {e}")));
+            }
+            if self.prop == "C05" {
+                // this property's own oracle: what the runs hold at their end belongs to their solutions
+                return exp.digests.iter().find_map(|(k, d)| d.stale.as_ref().map(|m| Violation::new("experiment stale-objective", format!("{tname} under {sched}, run {k:?}: {m}"))));
+            }
+            if self.prop == "C06" {
+                // reported evaluations of all runs == objective calls actually made
+                if c.user_rng.is_none() {
+                    let reported: u64 = exp.digests.values().map(|d| d.evaluations.unwrap_or(0) as u64).sum();
+                    if exp.digests.len() == reference.len() && reported != exp.calls as u64 {
+                        return Some(Violation::new("experiment evaluations-vs-calls", format!("{tname} under {sched}: the runs report {reported} evaluations in total, the objective functions were called {} times", exp.calls)));
+                    }
+                }
+                return None;
             }
             // per-(run, problem) digests
             if exp.digests.len() != reference.len() {
